@@ -291,7 +291,92 @@ where
     }
 }
 
+// ------------------------------------------------------------------ input validation
+// (the shrinker of check.py mutates inputs blindly; a malformed one must be reported as
+// ["invalid"], not as a panic of the code under test)
+fn is_half(v: &Value) -> bool {
+    v.as_u64().is_some_and(|x| x < (1u64 << 32))
+}
+fn is_halves(v: &Value) -> bool {
+    v.as_array().is_some_and(|a| a.len() == 2 && is_half(&a[0]) && is_half(&a[1]))
+}
+fn is_k(v: &Value) -> bool {
+    v.as_u64().is_some_and(|x| x < (1u64 << 31)) || is_halves(v)
+}
+fn is_small(v: &Value) -> bool {
+    v.as_i64().is_some_and(|x| x.abs() < (1i64 << 40))
+}
+fn is_ints(v: &Value) -> bool {
+    v.as_array().is_some_and(|a| a.iter().all(is_small))
+}
+fn is_pairs(v: &Value) -> bool {
+    v.as_array().is_some_and(|a| {
+        a.iter().all(|p| p.as_array().is_some_and(|q| q.len() == 2 && is_small(&q[0]) && is_small(&q[1])))
+    })
+}
+fn is_mode(v: &Value) -> bool {
+    v.as_i64().is_some_and(|m| (-1..=1_000_000).contains(&m))
+}
+fn is_entry(v: &Value) -> bool {
+    v.as_i64().is_some_and(|e| e == 0 || e == 1)
+}
+fn is_expr(e: &Value) -> bool {
+    let Some(a) = e.as_array() else { return false };
+    match (a.first().and_then(Value::as_i64), a.len()) {
+        (Some(0), 1) => true,
+        (Some(1), 3) => is_expr(&a[1]) && is_small(&a[2]),
+        (Some(2), 3) => is_expr(&a[1]) && is_expr(&a[2]),
+        (Some(3), 2) => is_ints(&a[1]),
+        _ => false,
+    }
+}
+fn valid(kind: &str, input: &Value) -> bool {
+    let Some(a) = input.as_array() else { return false };
+    let head = |n: usize| a.len() == n && is_entry(&a[0]) && is_k(&a[1]) && is_halves(&a[2]) && is_mode(&a[3]);
+    match kind {
+        "g" => head(5) && is_ints(&a[4]),
+        "k" => head(5) && is_pairs(&a[4]),
+        "cmpg" => head(6) && is_mode(&a[4]) && is_ints(&a[5]),
+        "cmpk" => head(6) && is_mode(&a[4]) && is_pairs(&a[5]),
+        "j" => head(6) && a[4].as_i64().is_some_and(|r| (0..=3).contains(&r)) && is_pairs(&a[5]),
+        "bg" => {
+            head(5)
+                && a[4].as_array().is_some_and(|r| {
+                    r.len() == 3
+                        && r.iter().all(|x| x.as_i64().is_some_and(|x| (0..(1i64 << 41)).contains(&x)))
+                        && r[2].as_i64().unwrap() <= 2_000_000
+                        && r[1].as_i64().unwrap() < (1i64 << 21) // start + step * n < 2^62
+                })
+        }
+        "bk" => {
+            head(6)
+                && a[4].as_i64().is_some_and(|r| (0..=3).contains(&r))
+                && a[5].as_array().is_some_and(|segs| {
+                    segs.iter().all(|s| {
+                        s.as_array().is_some_and(|r| {
+                            r.len() == 5
+                                && r.iter().all(|x| x.as_i64().is_some_and(|x| (0..(1i64 << 41)).contains(&x)))
+                                && r[0].as_i64().unwrap() >= 1
+                                && r[0].as_i64().unwrap() <= 1000
+                                && r[3].as_i64().unwrap() < (1i64 << 21)
+                                && r[4].as_i64().unwrap() <= 2_000_000
+                        })
+                    })
+                })
+        }
+        "expr" => a.len() == 3 && is_k(&a[0]) && is_halves(&a[1]) && is_expr(&a[2]),
+        _ => false,
+    }
+}
+
 fn run(kind: &str, input: &Value) -> Value {
+    if !valid(kind, input) {
+        return json!(["invalid"]);
+    }
+    run_valid(kind, input)
+}
+
+fn run_valid(kind: &str, input: &Value) -> Value {
     match kind {
         "g" | "k" => {
             let (entry, k) = (input[0].as_i64().unwrap(), k_of(&input[1]));
@@ -395,7 +480,95 @@ fn gen_expr(rng: &mut SplitMix64, depth: u32, budget: &mut i64) -> Value {
     }
 }
 
+/// Generated cases are buffered so that the expensive ones (inputs of 10^4 .. 10^5 elements, about
+/// 1 .. 3 s each on the Coq side) can be spread evenly over the 16 judging shards.
+#[derive(Default)]
+struct Buf {
+    small: Vec<(String, Value, bool, Vec<String>)>,
+    big: Vec<(u64, (String, Value, bool, Vec<String>))>,
+}
+impl Buf {
+    fn case(&mut self, kind: &str, input: Value, nontrivial: bool, tags: &[&str]) {
+        self.small.push((kind.into(), input, nontrivial, tags.iter().map(|t| (*t).into()).collect()));
+    }
+    fn heavy(&mut self, weight: u64, kind: &str, input: Value, nontrivial: bool, tags: &[&str]) {
+        let c = (kind.into(), input, nontrivial, tags.iter().map(|t| (*t).into()).collect());
+        self.big.push((weight, c));
+    }
+    fn flush(mut self, em: &mut Emitter) {
+        const SHARDS: usize = 16;
+        // heaviest first, dealt round-robin to the shards
+        self.big.sort_by(|a, b| b.0.cmp(&a.0));
+        let mut per: Vec<Vec<(String, Value, bool, Vec<String>)>> = (0..SHARDS).map(|_| Vec::new()).collect();
+        for (i, (_, c)) in self.big.into_iter().enumerate() {
+            per[i % SHARDS].push(c);
+        }
+        let total = self.small.len() + per.iter().map(Vec::len).sum::<usize>();
+        let chunk = total.div_ceil(SHARDS).max(1);
+        let mut small = self.small.into_iter();
+        for bigs in per {
+            let nsmall = chunk.saturating_sub(bigs.len());
+            for (kind, input, nt, tags) in bigs {
+                let t: Vec<&str> = tags.iter().map(String::as_str).collect();
+                em.case(&kind, input, nt, &t);
+            }
+            for (kind, input, nt, tags) in small.by_ref().take(nsmall) {
+                let t: Vec<&str> = tags.iter().map(String::as_str).collect();
+                em.case(&kind, input, nt, &t);
+            }
+        }
+        for (kind, input, nt, tags) in small {
+            let t: Vec<&str> = tags.iter().map(String::as_str).collect();
+            em.case(&kind, input, nt, &t);
+        }
+    }
+}
+
 fn generate(seed: u64, tier: Tier, em: &mut Emitter) {
+    let mut b = Buf::default();
+    gen_all(seed, tier, &mut b);
+    b.flush(em);
+}
+
+/// the ten ways a sample of a range is taken: global (`bg`, entry 0/1) and per key (`bk`, entry 0/1,
+/// route 0 = collected directly, 1..3 = through a join)
+const VARIANTS: [(bool, i64, i64); 10] = [
+    (false, 0, 0),
+    (false, 1, 0),
+    (true, 0, 0),
+    (true, 1, 0),
+    (true, 0, 1),
+    (true, 1, 1),
+    (true, 0, 2),
+    (true, 1, 2),
+    (true, 0, 3),
+    (true, 1, 3),
+];
+/// one compact case: `n` values under the sampled key (or globally), sample size `k`
+fn compact(variant: usize, k: usize, s: u64, mode: i64, n: usize, shape: u64) -> (&'static str, Value, u64) {
+    let (keyed, entry, route) = VARIANTS[variant % 10];
+    let n = n as i64;
+    if !keyed {
+        let (start, step) = match shape % 4 {
+            0 => (0i64, 1i64),
+            1 => (5, 3),
+            2 => (1000, 0), // all values equal
+            _ => (1i64 << 40, 1i64 << 20),
+        };
+        ("bg", json!([entry, k_json(k), seed_json(s), mode, [start, step, n]]), n as u64)
+    } else {
+        // the sampled key 5 holds n values; smaller keys around it / interleaved with it
+        let (segs, rows) = match shape % 4 {
+            0 => (json!([[1, 5, 0, 1, n], [2, 8, 1_000_000, 1, 6]]), n + 6),
+            1 => (json!([[2, 2, 7, 0, 4], [1, 5, 0, 2, n], [1, 9, 3, 1, 1]]), n + 5),
+            2 => (json!([[2, 4, 10, 1, 2 * n]]), 2 * n), // keys 4 and 5 interleaved, n values each
+            _ => (json!([[1, 5, 0, 1, n / 2], [1, 6, 0, 1, 3], [1, 5, 1 << 30, 5, n - n / 2]]), n + 3),
+        };
+        ("bk", json!([entry, k_json(k), seed_json(s), mode, route, segs]), rows as u64)
+    }
+}
+
+fn gen_all(seed: u64, tier: Tier, em: &mut Buf) {
     let thorough = tier == Tier::Thorough;
     // 1. the documented witness and its neighbourhood (also in corpus/C14.jsonl)
     let d20: Vec<i64> = (0..20).collect();
@@ -537,6 +710,151 @@ fn generate(seed: u64, tier: Tier, em: &mut Emitter) {
             em.case("k", json!([entry, k_json(k), seed_json(s), m1, jpairs(&kd)]), nt, &["cmp-side"]);
             em.case("k", json!([entry, k_json(k), seed_json(s), m2, jpairs(&kd)]), nt, &["cmp-side"]);
         }
+    }
+
+    // 5. per-key samples that feed a join (the un-lifted GroupByKey + group-wise combine route),
+    //    explicit rows, bit-exact: exhaustive small space, then random
+    for n in 0..=4usize {
+        for k in 0..=n + 1 {
+            for mode in -1..=(n as i64 + 1) {
+                for route in 1..=3i64 {
+                    for entry in 0..2i64 {
+                        let si = (n + k + route as usize + entry as usize) % 4;
+                        let data = pattern((n + k) as u64 % 2, n);
+                        let kd = keyed_of(&data, 2);
+                        em.case(
+                            "j",
+                            json!([entry, k, seed_json(SEEDS[si]), mode, route, jpairs(&kd)]),
+                            n >= 2 && k >= 1,
+                            &["join", "small"],
+                        );
+                    }
+                }
+            }
+        }
+    }
+    let nj = if thorough { 4000 } else { 500 };
+    for _ in 0..nj {
+        let n = if rng.chance(1, 6) { rng.below(4) } else { rng.below(nlim + 1) } as usize;
+        let k = match rng.below(7) {
+            0 => 0,
+            1 => n,
+            2 => n + 1,
+            3 => 1,
+            4 => *rng.pick(&HUGE_K),
+            _ => rng.below(n as u64 + 2) as usize,
+        };
+        let s = if rng.chance(1, 4) { *rng.pick(&SEEDS) } else { rng.next_u64() };
+        let mode = match rng.below(6) {
+            0 => -1,
+            1 => 0,
+            2 => 64,
+            _ => rng.range(1, n as i64 + 2),
+        };
+        let nkeys = *rng.pick(&[1i64, 2, 3, 5]);
+        let range = *rng.pick(&[1i64, 3, 10, 1000]);
+        let kd: Vec<(i64, i64)> = (0..n).map(|_| (rng.range(0, nkeys - 1), rng.range(0, range))).collect();
+        let route = if rng.chance(1, 8) { 0 } else { rng.range(1, 3) };
+        em.case(
+            "j",
+            json!([rng.below(2), k_json(k), seed_json(s), mode, route, jpairs(&kd)]),
+            n >= 2 && k >= 1,
+            &["join", "random"],
+        );
+    }
+
+    // 6. sizes: every power of two (and 20) from 16 up to 65536, n and k on both sides of it, then
+    //    70 000 and 100 000; all ten variants (global / per key, vec / flattened, collected directly /
+    //    through a join), sequential and partitioned.  Compact inputs, digested observations.
+    let modes = [-1i64, 1, 2, 3, 7, 16, 64, 0];
+    let mut idx = seed as usize;
+    let small_t: &[usize] = &[16, 20, 32, 64, 128, 256, 512, 1024, 2048, 4096];
+    for &t in small_t {
+        for (n, k) in [(t + 1, t), (t + 1, t + 1), (t + 2, t + 1), (t, t - 1), (t - 1, t), (2 * t + 1, t + 1), (t + 1, usize::MAX)] {
+            for v in 0..10 {
+                idx += 1;
+                let mode = if idx % 5 == 0 { n as i64 } else { modes[idx % modes.len()] };
+                let s = if idx % 3 == 0 { SEEDS[idx % 4] } else { rng.next_u64() };
+                let shape = if t > 1024 && idx % 4 == 2 { 0 } else { idx as u64 };
+                let (kind, input, w) = compact(v, k, s, mode, n, shape);
+                if w > 3000 {
+                    em.heavy(w, kind, input, true, &["sizes"]);
+                } else {
+                    em.case(kind, input, true, &["sizes"]);
+                }
+            }
+        }
+    }
+    let mid_t: &[usize] = if thorough { &[8192, 16384, 32768, 131_072] } else { &[8192, 16384, 32768] };
+    for &t in mid_t {
+        let pairs = [(t + 1, t), (t + 1, t + 1), (t + 2, t + 1), (t + 1, usize::MAX), (t, t - 1), (t + t / 2, t + 1)];
+        let reps = if thorough { 20 } else if t == 8192 { 10 } else { 6 };
+        for i in 0..reps {
+            idx += 1;
+            let (n, k) = pairs[(i + idx) % pairs.len()];
+            let mode = modes[idx % 6];
+            let (kind, input, w) = compact(i + seed as usize, k, rng.next_u64(), mode, n, if idx % 3 == 0 { 1 } else { 0 });
+            em.heavy(w, kind, input, true, &["sizes", "large"]);
+        }
+    }
+    // both sides above 65 536 (and the boundary itself)
+    let top = [
+        (65_537usize, 65_537usize),
+        (65_537, usize::MAX),
+        (65_538, 65_537),
+        (70_000, 69_999),
+        (70_000, 1 << 31),
+        (100_000, 65_537),
+        (100_000, 99_999),
+        (70_000, 70_000),
+        (65_537, 65_536),
+        (65_536, 65_537),
+        (100_000, 1 << 63),
+        (80_000, 70_001),
+    ];
+    let ntop = if thorough { 120 } else { 40 };
+    for i in 0..ntop {
+        idx += 1;
+        let (n, k) = top[(i / 10 + i + seed as usize) % top.len()];
+        let mode = [-1i64, 1, 3, 16, -1, 2, 64, 5][(i * 3 + idx) % 8];
+        let s = if i % 4 == 0 { 42 } else { rng.next_u64() };
+        let shape = if i % 10 >= 2 && (i / 10) % 4 == 3 { 3 } else if i % 7 == 3 { 1 } else { 0 };
+        let (kind, input, w) = compact(i, k, s, mode, n, shape);
+        em.heavy(w, kind, input, true, &["sizes", "huge"]);
+    }
+
+    // 7. random mid-size compact cases
+    let nmid = if thorough { 1500 } else { 260 };
+    for _ in 0..nmid {
+        let n = match rng.below(3) {
+            0 => rng.range(41, 200),
+            1 => rng.range(200, 1000),
+            _ => rng.range(1000, 3000),
+        } as usize;
+        let k = match rng.below(8) {
+            0 => 0,
+            1 => n,
+            2 => n + 1,
+            3 => n - 1,
+            4 => 1,
+            5 => *rng.pick(&HUGE_K),
+            _ => rng.below(n as u64 + 2) as usize,
+        };
+        let s = match rng.below(6) {
+            0 => *rng.pick(&SEEDS),
+            1 => rng.below(100),
+            _ => rng.next_u64(),
+        };
+        let mode = match rng.below(8) {
+            0 | 1 => -1,
+            2 => 0,
+            3 => 64,
+            4 => n as i64,
+            5 => rng.range(2, 9),
+            _ => rng.range(1, n as i64 + 2),
+        };
+        let (kind, input, _) = compact(rng.below(10) as usize, k, s, mode, n, rng.below(8));
+        em.case(kind, input, k >= 1, &["sizes", "random"]);
     }
 }
 
